@@ -11,7 +11,7 @@ RULE = ("API programs (G4): trees of VCALENDAR/VEVENT/VTODO/VJOURNAL/VFREEBUSY/V
         "(datetime.timezone, dateutil tzoffset) or an alias of UTC (Etc/UTC, Zulu, GMT, timezone.utc, tzutc) in 7 shapes: read back they must be the same instant, offset and wall time. Oracles: the tree parsed back from to_ical() must equal what "
         "an independent emitter + reference reader say the program denotes (R8: nesting, names, multi-value order, parameters, decoded values with zone "
         "key and utcoffset); every emitted line is read with R2 and its value type recognised with R4: a non-default type must carry the matching VALUE "
-        "parameter, a zoned value its TZID, a UTC value a Z and no TZID; decoded(name) must not raise; both providers; non-trivial = program with >= 6 "
+        "parameter, a zoned value its TZID, a UTC value a Z and no TZID; decoded(name) must not raise; every direct subcomponent written and read on its own (to_ical()/from_ical() of its class) gives the same subtree; both providers; non-trivial = program with >= 6 "
         "properties; distinct by case hash")
 ASSUMPTIONS = ["values are supplied in the kinds R10 allows for the name; UTC-only properties get UTC (S7)", "date lists carry one zone (the library documents no support for several)",
                "G4 keeps wall times out of 00:00-05:00 so that DST gaps/folds (C11) are not involved", "custom VTIMEZONE zones are not used on the API path"]
@@ -272,6 +272,20 @@ def check_case(ctx, case):
             except Exception as e:
                 ctx.fail("decoded-raises", observed=(c.name, name, f"{type(e).__name__}: {e}"[:200]), expected="a decoded value")
                 return
+    # the same through the other entry points: every direct subcomponent written by its own to_ical() and read by its own class
+    want_subs = list(want[0][2])
+    for sub in built.subcomponents:
+        try:
+            sback = type(sub).from_ical(sub.to_ical())
+        except Exception as e:
+            ctx.fail("subcomponent-entry-point-raises", observed=(sub.name, f"{type(e).__name__}: {e}"[:200]), expected="the subtree")
+            return
+        so = neutral(tree.obs(sback))
+        if so not in want_subs:
+            near = next((w for w in want_subs if w[0] == so[0]), None)
+            ctx.fail("subcomponent-entry-point-differs", observed=(sub.name, (tree.diff(so, near) or "")[:400] if near else "no such subcomponent"), expected="the same subtree as through the calendar")
+            return
+        ctx.count("subcomponent-entry-points")
     ctx.count("programs-equal")
     if kind == "single":
         # the class each RFC name decodes to
